@@ -288,6 +288,9 @@ def intrinsics():
     I[SL + "contains"] = lambda ip, n, a: any(ip.binop("==", x, a[1], n) for x in d(a[0]).items)
     I[SL + "get"] = lambda ip, n, a: some(d(a[0]).items[d(a[1])]) if isinstance(d(a[1]), int) and 0 <= d(a[1]) < len(d(a[0]).items) else none()
     I[SL + "to_vec"] = lambda ip, n, a: A.VecV(list(d(a[0]).items))
+    I[SL + "get_mut"] = I[SL + "get"]
+    I[SL + "last_mut"] = I[SL + "last"]
+    I[SL + "first_mut"] = I[SL + "first"]
 
     # ---- BTreeMap / BTreeSet (HashMap modelled alike)
     for M in (BM, "std::collections::hash::map::HashMap::<K, V, S>::", "std::collections::hash::map::HashMap::<K, V, S, A>::"):
@@ -311,8 +314,27 @@ def intrinsics():
         I[S + "iter"] = lambda ip, n, a: to_iter(a[0])
     I[BS.replace("::<T, A>::", "::<T>::") + "new"] = lambda ip, n, a: SetV()
 
+    def insert_or_error(ip, n, a):
+        m = d(a[0])
+        if m.get(a[1]) is not None:
+            return err(A.Struct("OccupiedError", {"value": a[2]}))
+        m.insert(a[1], a[2])
+        return ok(a[2])
+    I["trustfall_core::util::BTreeMapTryInsertExt::insert_or_error"] = insert_or_error
+    I["trustfall_core::util::HashMapTryInsertExt::insert_or_error"] = insert_or_error
+    I["core::ptr::eq"] = lambda ip, n, a: d(a[0]) is d(a[1])
+    I["core::num::nonzero::NonZero::<T>::get"] = lambda ip, n, a: d(a[0])
+
     def index(ip, n, a):
         base, idx = d(a[0]), d(a[1])
+        if isinstance(base, A.Struct) and len(base.fields) == 1 and isinstance(list(base.fields.values())[0], A.VecV):
+            base = list(base.fields.values())[0]          # newtype around a Vec with an Index impl (ComponentPath)
+        if isinstance(base, A.VecV) and isinstance(idx, A.Struct) and idx.adt.startswith("core::ops::range::Range"):
+            lo = d(idx.fields.get("start", 0)) if "start" in idx.fields else 0
+            hi = d(idx.fields["end"]) if "end" in idx.fields else len(base.items)
+            if not (0 <= lo <= hi <= len(base.items)):
+                raise A.PanicReached("slice index out of range")
+            return A.VecV(base.items[lo:hi])
         if isinstance(base, MapV):
             v = base.get(idx)
             if v is None:
